@@ -163,8 +163,12 @@ func verifHarness_C08_stickyPrior() {
 		}
 	}
 	menu := []topicPartitionAssignment{{"a", 0}, {"a", 1}, {"b", 0}, {"a", 7}}
-	for _, id := range g.ids {
-		slots := vChoose("priorSlots", 3)
+	for i, id := range g.ids {
+		maxSlots := 3
+		if i == 2 {
+			maxSlots = 2 // thorough tier: the third member claims at most one prior partition (keeps the space ~3M paths)
+		}
+		slots := vChoose("priorSlots", maxSlots)
 		if slots == 0 {
 			continue
 		}
